@@ -178,7 +178,7 @@ def healthy_extras(t, desc, count):
     return out
   out = []
   for i in range(count):
-    cid = SIG_CURVES[i % len(SIG_CURVES)]
+    cid = SIG_CURVES[(desc['arts'][0][0] + (i // 3)) % len(SIG_CURVES)]
     n = eg.ref(cid).n
     iss = eg.Issuer(cid, 1 + mat.below(n - 1))
     for kk in eg.nonces_uniform(mat, n, 1 + i % 2):
@@ -257,6 +257,12 @@ def _history(desc, mat):
               [2**4, 2**10, 2**14][b % 3])
     elif kind == 'reset':
       curve._table, curve._table_size = {}, 0
+    elif kind == 'small_table':
+      # leaves a very small cached table on every curve
+      for c2 in ec_util.CURVE_FACTORY.values():
+        if c2 is not None:
+          c2._table, c2._table_size = {}, 0
+          libcall(c2.BatchDLOfDifferences, [c2.g, c2.Multiply(c2.g, 3)], None, 2 ** (2 + b % 3))
     elif kind == 'multg':
       libcall(curve.BatchMultiplyG, [1 + mat.below(n - 1) for _ in range(1 + b % 4)])
     elif kind == 'rsa':
@@ -363,7 +369,7 @@ def run_contexts(desc):
 
 
 def strat_contexts(tier):
-  hist = st.lists(st.tuples(st.sampled_from(['batchdl', 'diffs', 'reset', 'multg', 'rsa', 'ecall']),
+  hist = st.lists(st.tuples(st.sampled_from(['batchdl', 'diffs', 'reset', 'multg', 'rsa', 'ecall', 'small_table', 'small_table']),
                             st.integers(0, 3), st.integers(0, 1000)).map(list), max_size=4)
 
   @st.composite
